@@ -9,7 +9,7 @@ packet are compared.  The direct oracle (success, equal secrets on both sides, s
 readable by the server) classifies each case on the real code, so a defect is reported with its scripted exchange."""
 from . import handshake_common as HC
 
-PROPS = "theories/Props/C06.v"
+PROPS = ["theories/Props/C06.v", "theories/Props/ComposeSession.v"]   # (the second: C06 + C03 + C08 + C02 + C01 composed)
 RULE = ("conformant exchanges: the 24 forced corners {nonce, server_nonce, new_nonce, new_nonce_hash1, RSA ciphertext, g_a, g_b, g^ab} x "
         "{0, 1, 2 leading zero bytes} (searched on math/big by stepping the secret exponent / redrawing new_nonce); corners on DERIVED quantities and "
         "range ends: new_nonce[0:k] == server_nonce[0:k] for k = 1, 2, 3, 7, 8 (the salt xor with k leading zero bytes, incl. salt = 0), equal last byte, "
